@@ -959,6 +959,7 @@ class OALParser(object):
     
     def t_TICKED_PHRASE(self, t):
         r"\'[^\']*\'"
+        t.lexer.lineno += t.value.count('\n')
         t.endlexpos = t.lexpos + len(t.value)
         return t
     
@@ -969,16 +970,19 @@ class OALParser(object):
     
     def t_END_FOR(self, t):
         r"[Ee][Nn][Dd][\s]+[Ff][Oo][Rr]"
+        t.lexer.lineno += t.value.count('\n')
         t.endlexpos = t.lexpos + len(t.value)
         return t
     
     def t_END_IF(self, t):
         r"[Ee][Nn][Dd][\s]+[Ii][Ff]"
+        t.lexer.lineno += t.value.count('\n')
         t.endlexpos = t.lexpos + len(t.value)
         return t
     
     def t_END_WHILE(self, t):
         r"[Ee][Nn][Dd][\s]+[Ww][Hh][Ii][Ll][Ee]"
+        t.lexer.lineno += t.value.count('\n')
         t.endlexpos = t.lexpos + len(t.value)
         return t
     
